@@ -615,6 +615,10 @@ class Backend(ABC):
                 return self.convert_condition_query_expr(cond, state)
             case SigmaExpansion():
                 return self.convert_condition_val_expansion(cond, state)
+            case SigmaNull():
+                raise SigmaValueError(
+                    "Null values can't appear as standalone value without a field name."
+                )
             case _:  # pragma: no cover
                 raise TypeError(
                     "Unexpected value type class in condition parse tree: "
